@@ -348,6 +348,113 @@ Definition col_norms_sym_from (A : csc) (s : list T) : list T :=
                         (fst e) (fun t => maxabs t (snd e))) (snd jc) s)
     (indexed (cols A)) s.
 
+(** ** gemv / gemv_T / symv exactly as coded (matrix_math.rs): the [b]-scaling of [y] and the
+    accumulation loop each have separate branches for the coefficient values 0, 1, -1 and
+    "anything else".  Over a ring all branches equal [gemv]/[gemv_T]/[symv] above (Spec.v,
+    [stmt_fast_paths]); over binary64 ([OpsF]) they are what the code computes bit for bit,
+    including what happens to signed zeros and non-finite garbage. *)
+Inductive coef_class : Set := CZero | COne | CMinusOne | CGeneral.
+Definition classify_coef (c : T) : coef_class :=
+  if eqb O c (zero O) then CZero
+  else if eqb O c (one O) then COne
+  else if eqb O c (neg O (one O)) then CMinusOne
+  else CGeneral.
+
+(** [y.fill(0)] / nothing / [y.negate()] / [y.scale(b)] *)
+Definition scale_fast (b : T) (y : list T) : list T :=
+  match classify_coef b with
+  | CZero => map (fun _ => zero O) y
+  | COne => y
+  | CMinusOne => map (neg O) y
+  | CGeneral => map (fun t => mul O t b) y
+  end.
+
+(** the scatter loop of [_csc_axpby_N] with per-entry update [step v xj t] *)
+Definition scatter (step : T -> T -> T -> T) (A : csc) (x y0 : list T) : list T :=
+  fold_left
+    (fun y jc => fold_left (fun y e => upd y (fst e) (step (snd e) (nth (fst jc) x (zero O))))
+                           (snd jc) y)
+    (indexed (cols A)) y0.
+Definition gemv_fast (A : csc) (x y : list T) (a b : T) : list T :=
+  let y0 := scale_fast b y in
+  match classify_coef a with
+  | CZero => y0                                                        (* early return *)
+  | COne => scatter (fun v xj t => add O t (mul O v xj)) A x y0         (* y[r] += v * xj *)
+  | CMinusOne => scatter (fun v xj t => sub O t (mul O v xj)) A x y0    (* y[r] -= v * xj *)
+  | CGeneral => scatter (fun v xj t => add O t (mul O (mul O a v) xj)) A x y0
+  end.
+
+(** the gather loop of [_csc_axpby_T] *)
+Definition gather (step : T -> T -> T -> T) (A : csc) (x y0 : list T) : list T :=
+  map (fun jy => fold_left (fun t e => step (snd e) (nth (fst e) x (zero O)) t)
+                           (nth (fst jy) (cols A) []) (snd jy))
+      (indexed y0).
+Definition gemv_T_fast (A : csc) (x y : list T) (a b : T) : list T :=
+  let y0 := scale_fast b y in
+  match classify_coef a with
+  | CZero => y0
+  | COne => gather (fun v xr t => add O t (mul O v xr)) A x y0
+  | CMinusOne => gather (fun v xr t => sub O t (mul O v xr)) A x y0
+  | CGeneral => gather (fun v xr t => add O t (mul O (mul O a v) xr)) A x y0
+  end.
+
+(** [_csc_symv_unsafe]: [y.scale(b)] always (no fast path), then both updates per stored entry *)
+Definition symv_coded (A : csc) (x y : list T) (a b : T) : list T :=
+  fold_left
+    (fun y jc =>
+       fold_left (fun y e =>
+                    let y1 := upd y (fst e)
+                      (fun t => add O t (mul O (mul O a (snd e)) (nth (fst jc) x (zero O)))) in
+                    if fst e =? fst jc then y1
+                    else upd y1 (fst jc)
+                      (fun t => add O t (mul O (mul O a (snd e)) (nth (fst e) x (zero O)))))
+                 (snd jc) y)
+    (indexed (cols A)) (map (fun t => mul O t b) y).
+(** every index into [x] / [y] that the kernel dereferences without a bounds check *)
+Definition symv_trace (A : csc) : list nat :=
+  flat_map (fun jc => flat_map (fun e : entry => [fst e; fst jc]) (snd jc)) (indexed (cols A)).
+
+(** ** index_to_coord on the raw encoding, as coded: [rowval[idx]] and
+    [colptr.partition_point(|c| idx + 1 > c) - 1].  On a partitioned slice (true prefix, false
+    suffix -- which a monotone colptr is) [partition_point] is the length of the true prefix. *)
+Fixpoint ppoint (p : nat -> bool) (l : list nat) : nat :=
+  match l with
+  | [] => 0
+  | a :: r => if p a then S (ppoint p r) else 0
+  end.
+Definition raw_index_to_coord (r : raw) (idx : nat) : option (nat * nat) :=
+  if idx <? nth (rn r) (rcolptr r) 0 then
+    Some (nth idx (rrowval r) 0, ppoint (fun c => c <=? idx) (rcolptr r) - 1)
+  else None.
+
+(** ** the missing-diagonal helpers of utils.rs (used by the KKT assembly on an upper-triangular
+    P): a column "misses its diagonal" when it is empty or its LAST stored row is not the
+    column index; [add_missing_diag] is the count/fill pipeline (colcount_block +
+    colcount_missing_diag, colcount_to_colptr, fill_block, fill_missing_diag, backshift) run on a
+    fresh matrix: every column of M followed by a structural zero on the diagonal if missing. *)
+Definition diag_missing (c : col) (j : nat) : bool :=
+  match rev c with
+  | [] => true
+  | e :: _ => negb (fst e =? j)
+  end.
+Definition add_missing_diag (M : csc) : csc :=
+  mkCsc (nr M) (nc M)
+    (map (fun jc => if diag_missing (snd jc) (fst jc) then snd jc ++ [(fst jc, zero O)] else snd jc)
+         (indexed (cols M))).
+Definition count_missing_diag (M : csc) : nat :=
+  countb (fun jc => diag_missing (snd jc) (fst jc)) (indexed (cols M)).
+(** count_diagonal_entries: Triu looks at the last entry of a column, Tril at the first *)
+Definition count_diag_triu (M : csc) : nat :=
+  countb (fun jc => negb (diag_missing (snd jc) (fst jc))) (indexed (cols M)).
+Definition count_diag_tril (M : csc) : nat :=
+  countb (fun jc => match snd jc with [] => false | e :: _ => fst e =? fst jc end)
+         (indexed (cols M)).
+
+(** the symmetric (full) expansion of an upper-triangular matrix, as a dense function *)
+Definition sym_dense (A : csc) : list (list T) :=
+  map (fun i => map (fun j => if i <=? j then get A i j else get A j i) (seq 0 (nc A)))
+      (seq 0 (nr A)).
+
 (** dense view as a list of rows, for printing and for comparison *)
 Definition to_dense (A : csc) : list (list T) :=
   map (fun i => map (fun j => get A i j) (seq 0 (nc A))) (seq 0 (nr A)).
